@@ -639,7 +639,7 @@ func runCorpusUnit(t *testing.T, unit string, dirs []string, strict bool, fams [
 var mainHeavy = []string{famMain, famMain, famMain, famMain, famMain, famMain, famYAML11, famDate, famAliasRaw, famAliasRef, famMerge}
 
 func TestCorpus(t *testing.T) {
-	runCorpusUnit(t, "corpus", []string{"positive", "examples"}, false, mainHeavy, vk.N(3, 40))
+	runCorpusUnit(t, "corpus", []string{"positive", "examples"}, false, mainHeavy, vk.N(3, 30))
 }
 
 func TestNegative(t *testing.T) {
